@@ -1130,6 +1130,12 @@ func runP(f []string) string {
 	case "zooL":
 		vm.Set("a", &zoo.L)
 		goAppend = func() { zoo.L = append(zoo.L, Inner{7}, Inner{8}, Inner{9}) }
+	case "embNil":
+		vm.Set("a", &struct {
+			*Inner
+			Name string
+			P    *Zoo
+		}{Name: "n"})
 	case "mapSimple":
 		vm.Set("a", map[string]interface{}{"0": 1, "k": "v", "Name": nil})
 	case "zooVal":
@@ -1158,6 +1164,8 @@ func runP(f []string) string {
 		switch p[0] {
 		case "get":
 			src = "var t" + arg(1) + " = a[" + arg(1) + "]; t" + arg(1)
+		case "fld":
+			src = "a.A; a.Name; a.Inner; a.A = 1; a.Inner = {A: 2}; a.A; 'A' in a; Object.getOwnPropertyDescriptor(a, 'A')"
 		case "getf":
 			src = "var q = a[" + arg(1) + "]; if (q && typeof q === 'object') { q.Field; q.A; q[0]; }"
 		case "set":
@@ -1532,6 +1540,250 @@ func runY(f []string) string {
 	return fmt.Sprintf("ok pairs=%d classes=%d multiclass=%d", len(w.ident), len(classes), multi)
 }
 
+// ---------------------------------------------------------------- K: nested wrappers (element wrapper -> field wrapper) on *[]KOuter
+
+type KInner struct{ X int }
+type KOuter struct {
+	In KInner
+	Y  int
+}
+
+func runK(f []string) string {
+	if len(f) < 3 || f[2] != "|" {
+		return "BADLINE"
+	}
+	var vals []int
+	if f[1] != "-" {
+		for _, s := range strings.Split(f[1], ",") {
+			vals = append(vals, atoi(s))
+		}
+	}
+	cp := atoi(f[0])
+	if cp < len(vals) {
+		cp = len(vals)
+	}
+	sl := make([]KOuter, len(vals), cp)
+	for i, v := range vals {
+		sl[i] = KOuter{KInner{v}, 100 + i}
+	}
+	vm := goja.New()
+	vm.Set("b", &sl)
+	var eh, nh []*goja.Object
+	find := func(list *[]*goja.Object, o *goja.Object) int {
+		for i, h := range *list {
+			if h == o {
+				return i
+			}
+		}
+		*list = append(*list, o)
+		return len(*list) - 1
+	}
+	var outs []string
+	dead := false
+	for _, tok := range f[3:] {
+		if dead {
+			outs = append(outs, "PANIC")
+			continue
+		}
+		p := strings.Split(tok, ":")
+		pre := ""
+		msg := recoverStr(func() {
+			switch p[0] {
+			case "get":
+				v, _ := vm.RunString("b[" + p[1] + "]")
+				if o, ok := v.(*goja.Object); ok {
+					pre = fmt.Sprintf("g=%d ", find(&eh, o))
+				} else {
+					pre = "g=- "
+				}
+			case "in":
+				if h := atoi(p[1]); h < len(eh) {
+					if o, ok := eh[h].Get("In").(*goja.Object); ok {
+						pre = fmt.Sprintf("n=%d ", find(&nh, o))
+					}
+				}
+			case "set":
+				_, _ = vm.RunString("b[" + p[1] + "] = {In: {X: " + p[2] + "}, Y: 0}")
+			case "cp":
+				_, _ = vm.RunString("if (" + p[2] + " < b.length) b[" + p[1] + "] = b[" + p[2] + "]")
+			case "wx":
+				if k := atoi(p[1]); k < len(nh) {
+					_ = nh[k].Set("X", atoi(p[2]))
+				}
+			case "wpx":
+				if h := atoi(p[1]); h < len(eh) {
+					vm.Set("H", eh[h])
+					_, _ = vm.RunString("H.In.X = " + p[2])
+				}
+			case "gw":
+				if i := atoi(p[1]); i < len(sl) {
+					sl[i].In.X = atoi(p[2])
+				}
+			case "len":
+				_, _ = vm.RunString("b.length = " + p[1])
+			case "sort":
+				_, _ = vm.RunString("b.sort(function(x, y) { return x.In.X - y.In.X })")
+			default:
+				pre = "BADOP "
+			}
+		})
+		if strings.HasPrefix(msg, "PANIC") {
+			dead = true
+			outs = append(outs, "PANIC")
+			continue
+		}
+		xs := make([]string, len(sl))
+		for i, e := range sl {
+			xs[i] = fmt.Sprintf("%d/%d", e.In.X, e.Y)
+		}
+		hs := make([]string, len(eh))
+		for i, h := range eh {
+			vm.Set("H", h)
+			v, _ := vm.RunString("H.In.X + '/' + H.Y")
+			hs[i] = fmt.Sprint(v)
+		}
+		ns := make([]string, len(nh))
+		for i, h := range nh {
+			ns[i] = h.Get("X").String()
+		}
+		outs = append(outs, fmt.Sprintf("%slen=%d s=[%s] h=[%s] n=[%s]", pre, len(sl), strings.Join(xs, ","), strings.Join(hs, ","), strings.Join(ns, ",")))
+	}
+	return strings.Join(outs, " ; ")
+}
+
+// ---------------------------------------------------------------- I: plain []interface{} / *[]interface{} wrapper (objectGoSlice)
+
+func runI(f []string) string {
+	if len(f) < 4 || f[3] != "|" {
+		return "BADLINE"
+	}
+	byPtr := f[0] == "p"
+	var buf []interface{}
+	if f[2] != "." {
+		for _, c := range strings.Split(f[2], ",") {
+			if c == "-" || c == "n" {
+				buf = append(buf, nil)
+			} else {
+				buf = append(buf, int64(atoi(c)))
+			}
+		}
+	}
+	n0 := atoi(f[1])
+	if n0 > len(buf) {
+		n0 = len(buf)
+	}
+	sl := buf[:n0:len(buf)]
+	vm := goja.New()
+	var aval goja.Value
+	if byPtr {
+		aval = vm.ToValue(&sl)
+	} else {
+		aval = vm.ToValue(sl)
+	}
+	vm.Set("a", aval)
+	goView := func() []interface{} {
+		if byPtr {
+			return sl
+		}
+		return aval.Export().([]interface{})
+	}
+	cell := func(x interface{}) string {
+		if x == nil {
+			return "-"
+		}
+		return fmt.Sprint(x)
+	}
+	val := func(x string) string {
+		if x == "n" || x == "-" {
+			return "null"
+		}
+		return x
+	}
+	var outs []string
+	dead := false
+	for _, tok := range f[4:] {
+		if dead {
+			outs = append(outs, "PANIC")
+			continue
+		}
+		p := strings.Split(tok, ":")
+		pre := ""
+		got := func(v goja.Value) string {
+			switch {
+			case v == nil || goja.IsUndefined(v):
+				return "g=undefined "
+			case goja.IsNull(v):
+				return "g=null "
+			}
+			return "g=" + v.String() + " "
+		}
+		msg := recoverStr(func() {
+			switch p[0] {
+			case "get":
+				v, _ := vm.RunString("a[" + p[1] + "]")
+				pre = got(v)
+			case "set":
+				_, _ = vm.RunString("a[" + p[1] + "] = " + val(p[2]))
+			case "len":
+				_, _ = vm.RunString("a.length = " + p[1])
+			case "del":
+				_, _ = vm.RunString("delete a[" + p[1] + "]")
+			case "push":
+				_, _ = vm.RunString("a.push(" + val(p[1]) + ")")
+			case "pop":
+				v, _ := vm.RunString("a.pop()")
+				pre = got(v)
+			case "gt":
+				if n := atoi(p[1]); byPtr && n <= len(sl) {
+					sl = sl[:n]
+				}
+			case "gs":
+				if n := atoi(p[1]); byPtr && len(sl) < n && n <= cap(sl) {
+					sl = sl[:n]
+				}
+			case "ga":
+				if byPtr && len(sl) < cap(sl) {
+					sl = append(sl, int64(atoi(p[1])))
+				}
+			case "gr":
+				if c := atoi(p[1]); byPtr && len(sl) <= c {
+					n := make([]interface{}, len(sl), c)
+					copy(n, sl)
+					sl = n
+				}
+			case "gw":
+				if i := atoi(p[1]); byPtr && i < len(sl) {
+					if p[2] == "n" {
+						sl[i] = nil
+					} else {
+						sl[i] = int64(atoi(p[2]))
+					}
+				}
+			default:
+				pre = "BADOP "
+			}
+		})
+		if strings.HasPrefix(msg, "PANIC") {
+			dead = true
+			outs = append(outs, "PANIC")
+			continue
+		}
+		gv := goView()
+		cs := make([]string, len(gv))
+		for i, x := range gv {
+			cs[i] = cell(x)
+		}
+		line := fmt.Sprintf("%slen=%d s=[%s]", pre, len(gv), strings.Join(cs, ","))
+		// the script view must be the same list
+		jv, _ := vm.RunString("var q = []; for (var i = 0; i < a.length; i++) q.push(a[i] === null ? '-' : String(a[i])); q.join(',')")
+		if jv == nil || jv.String() != strings.Join(cs, ",") {
+			line += " JSVIEW=[" + fmt.Sprint(jv) + "]"
+		}
+		outs = append(outs, line)
+	}
+	return strings.Join(outs, " ; ")
+}
+
 var errType = reflect.TypeOf((*error)(nil)).Elem()
 
 func intsOf(vs []reflect.Value) []string {
@@ -1866,6 +2118,10 @@ func main() {
 			return runM(f[1:])
 		case "Y":
 			return runY(f[1:])
+		case "I":
+			return runI(f[1:])
+		case "K":
+			return runK(f[1:])
 		case "C":
 			return runC(f[1:])
 		case "J":
